@@ -80,8 +80,13 @@ def daqmx_file(draw, max_segments=3, max_channels=4, max_buffers=3, max_len=5, m
                     break
                 b = draw(st.sampled_from(fit))
                 if c['kind'] == 'dl':
-                    # bit offset: the port word (size bytes from byte off // 8) must lie inside the row
-                    off = draw(st.integers(0, (widths[b] - size) * 8 + 7))
+                    if size == 1:
+                        off = draw(st.integers(0, widths[b] * 8 - 1))
+                    else:
+                        # a line of a 16 / 32-bit port: the port word is aligned to its size and the line is one of bits 0-7.
+                        # (For unaligned words or lines 8.. the format description does not say which bytes of a BIG-endian
+                        # row form the word; all readings agree on the combinations generated here.)
+                        off = draw(st.integers(0, widths[b] // size - 1)) * size * 8 + draw(st.integers(0, 7))
                 else:
                     off = draw(st.integers(0, widths[b] - size))
                 scalers.append({'type': stype, 'buf': b, 'off': off, 'fmt': draw(st.integers(0, 3)), 'id': sid})
@@ -242,6 +247,7 @@ def daqmx_packed_file(draw, max_segments=2, max_channels=4, max_buffers=2, max_l
             stype = draw(st.sampled_from(FC_TYPES if kind == 'fc' else ['u8', 'i8', 'u16', 'u32']))
             cursor[b] += draw(st.integers(0, 2))            # padding
             if kind == 'dl':
+                cursor[b] = -(-cursor[b] // tsize(stype)) * tsize(stype)        # port words are aligned to their size
                 # a digital line: bit (0..7) of the port word that occupies the next tsize bytes
                 scalers.append({'type': stype, 'buf': b, 'off': cursor[b] * 8 + draw(st.integers(0, 7)), 'fmt': 0, 'id': sid})
             else:
